@@ -64,7 +64,28 @@ func termOf(fn *ssa.Function, v ssa.Value, depth int) string {
 			}
 		}
 		return x.Op.String() + "(" + a + "," + b + ")"
+	case *ssa.Extract:
+		return termOf(fn, x.Tuple, depth+1) + fmt.Sprintf("#%d", x.Index)
+	case *ssa.Phi:
+		var parts []string
+		for _, e := range x.Edges {
+			if e == ssa.Value(x) {
+				continue
+			}
+			parts = append(parts, termOf(fn, e, depth+1))
+		}
+		sort.Strings(parts)
+		return "phi(" + strings.Join(parts, "|") + ")"
+	case *ssa.MakeInterface:
+		return termOf(fn, x.X, depth+1)
 	case *ssa.Call:
+		if x.Call.IsInvoke() {
+			var as []string
+			for _, a := range x.Call.Args {
+				as = append(as, termOf(fn, a, depth+1))
+			}
+			return "invoke:" + x.Call.Method.Name() + "(" + termOf(fn, x.Call.Value, depth+1) + strings.Join(append([]string{""}, as...), ",") + ")"
+		}
 		if bi, ok := x.Call.Value.(*ssa.Builtin); ok {
 			var as []string
 			for _, a := range x.Call.Args {
